@@ -162,6 +162,54 @@ class FA:
             out |= self.df.deps(expr, i)
         return out
 
+    # ---- name-independent view of an expression --------------------------------------
+    def expand(self, expr, at_node: Optional[int] = None, depth: int = 12, _stack=()):
+        """A copy of `expr` in which every local name that has exactly ONE reaching plain
+        assignment is replaced by (the expansion of) the assigned value.  Rules compare the
+        expansion instead of the spelling, so renaming a temporary, introducing one or inlining
+        one does not change what they see.  Names with several reaching definitions, parameters,
+        loop / with / comprehension variables are left as they are."""
+        import copy
+        if at_node is None:
+            ids = self.nodes(expr)
+            if not ids:
+                raise AnalysisError("%s: expression `%s` has no (reachable) CFG node" % (self.qual, A.short(expr, 60)))
+            at_node = ids[0]
+        bound = set()
+        for x in ast.walk(expr):
+            if isinstance(x, ast.comprehension):
+                bound |= {n.id for n in ast.walk(x.target) if isinstance(n, ast.Name)}
+            if isinstance(x, ast.Lambda):
+                bound |= {a.arg for a in x.args.args + x.args.kwonlyargs + x.args.posonlyargs}
+        fa = self
+
+        class T(ast.NodeTransformer):
+            def visit_Name(self, n):
+                if not isinstance(n.ctx, ast.Load) or n.id in bound or depth <= 0:
+                    return n
+                ds = fa.df.reaching(at_node, n.id)
+                if len(ds) != 1:
+                    return n
+                d = ds[0]
+                if d.kind != "assign" or d.value is None or (d.node, d.name) in _stack:
+                    return n
+                return fa.expand(d.value, d.node, depth - 1, _stack + ((d.node, d.name),))
+
+        return T().visit(copy.deepcopy(expr))
+
+    def xnorm(self, expr, at_node: Optional[int] = None) -> str:
+        """Normalised text of the expansion of `expr` (casts removed)."""
+        e = self.expand(expr, at_node)
+
+        class C(ast.NodeTransformer):
+            def visit_Call(self, n):
+                self.generic_visit(n)
+                if isinstance(n.func, ast.Name) and n.func.id == "cast" and len(n.args) == 2:
+                    return n.args[1]
+                return n
+
+        return A.norm(C().visit(e))
+
     def path_desc(self, start, target, removed=()):
         p = self.cfg.path(start, target, removed)
         return self.cfg.describe_path(p) if p else "(no path)"
